@@ -331,6 +331,62 @@ def run_framing(rng, res, tier, case=None):
     return bad, case
 
 
+def decode_stream(ch, data):
+    sent = []
+    buf = data
+    while len(buf) >= 4:
+        (n,) = struct.unpack('>I', buf[:4])
+        obj = pickle.loads(buf[4: 4 + n])
+        sent.append(logging.makeLogRecord(obj) if ch.name == 'logger.LogSink' else obj)
+        buf = buf[4 + n:]
+    return sent
+
+
+def run_interleaved(rng, res, case=None):
+    '''two or three connections of one channel receive their fragments interleaved:
+    partial-frame state is per connection'''
+    bad = []
+    if case is None:
+        ch = rng.choice(CHANNELS)
+        streams = [ch.gen(rng)[1] for _ in range(rng.choice([2, 2, 3]))]
+        plan = []
+        for i, d in enumerate(streams):
+            k = min(len(d) - 1, rng.choice([1, 2, 3, 6]))
+            cut = sorted(rng.sample(range(1, len(d)), k)) if len(d) > 1 else []
+            plan.append(cut)
+        order = []
+        left = [len(c) + 1 for c in plan]
+        while any(left):
+            i = rng.choice([j for j, n in enumerate(left) if n])
+            order.append(i)
+            left[i] -= 1
+        case = {'channel': ch.name, 'streams': [d.hex() for d in streams], 'cuts': plan, 'order': order, 'interleaved': True}
+    ch = [c for c in CHANNELS if c.name == case['channel']][0]
+    streams = [bytes.fromhex(h) for h in case['streams']]
+    conns = [ch.fresh() for _ in streams]
+    chunks = [cuts_of(d, c) for d, c in zip(streams, case['cuts'])]
+    pos = [0] * len(streams)
+    for i in case['order']:
+        p, tr, _rec = conns[i]
+        if pos[i] < len(chunks[i]) and not tr.disconnecting:
+            try:
+                p.dataReceived(chunks[i][pos[i]])
+            except Exception as e:  # pylint: disable=broad-exception-caught
+                bad.append(('fragmentation-proof', f'{ch.name}: connection {i} of {len(streams)} interleaved connections raised {type(e).__name__}: {e}', case))
+                return bad, case
+        pos[i] += 1
+    res.count('chunkings')
+    res.count('interleaved_connection_runs')
+    res.see('nontrivial', h64([case['streams'][0][:40], case['cuts'], case['order']]))
+    for i, (d, (_p, _tr, rec)) in enumerate(zip(streams, conns)):
+        want = decode_stream(ch, d)
+        if not ch.same(rec, want):
+            bad.append(('fragmentation-proof', f'{ch.name}: connection {i} of {len(streams)} whose fragments were interleaved with the others delivered '
+                        f'{len(rec)} messages, {len(want)} were sent to it', case))
+            break
+    return bad, case
+
+
 # ---------------------------------------------------------------------------
 # handshake
 FAULTS = [None, 'bad-first-signature', 'first-prefix-not-4', 'second-prefix-not-4', 'wrong-echo', 'bad-second-signature', 'garbage-first']
@@ -469,7 +525,13 @@ def run_shard(spec):
     n = 0
     while res.elapsed() < spec['budget']:
         n += 1
-        if n % 3:
+        if n % 7 == 1:
+            bad, case = [], None
+            for _ in range(40):
+                bad, case = run_interleaved(rng, res)
+                if bad:
+                    break
+        elif n % 3:
             bad, case = run_framing(rng, res, spec['tier'])
             res.count('streams')
         else:
@@ -490,7 +552,9 @@ def replay(witness):
     world.World(fsm=False).fresh_db()
     res = Result()
     rng = random.Random(0)
-    if 'stream' in witness:
+    if witness.get('interleaved'):
+        bad, _ = run_interleaved(rng, res, case=witness)
+    elif 'stream' in witness:
         bad, _ = run_framing(rng, res, 'quick', case=witness)
     else:
         bad, _ = run_handshake(rng, res, 'quick', case=witness)
